@@ -214,8 +214,9 @@ def c17(run, a):
     cov["distinct_nontrivial"] = r["vectors_run"]
     cov["exhaustive"] = not quick
     cov["samples"] = [meta["vectors"][100], meta["vectors"][500]]
-    cov["rule"] = ("TLC checks the behaviour spec (3 containers x 4 states, runtime up/err/down, rounds interleaved with container deaths and runtime changes; safety + liveness) and emits all %d scenarios "
-                   "(container states x <=2 runtime phases) with the files that must exist after each phase; %s run against the real collector with a fake docker daemon over real directories, "
+    cov["rule"] = ("TLC checks the behaviour spec (3 containers x 4 states, runtime up/err/down, at most one container whose own inspect call keeps failing while the runtime answers for the others, "
+                   "rounds interleaved with container deaths, runtime changes and the repair of the inspect fault; safety + liveness) and emits all %d scenarios "
+                   "(container states x <=2 runtime phases x per-container inspect fault x failing port clean-up) with the files that must exist after each phase; %s run against the real collector with a fake docker daemon over real directories, "
                    "including non-container files and both content formats of IP files" % (meta["n"], "a seeded sample is" if quick else "all are"))
     for fd in r["findings"] or []:
         run.add_violation(fd["check"], fd["detail"][:200], {"property": "C17", "vector": fd["vector"], "phase": fd["phase"], "detail": fd["detail"], "how": "harness/cmd/gcdrive"}, {"check": fd["check"]})
